@@ -1,7 +1,7 @@
 #!/usr/bin/env python3
 """Writes the prompts for an audit round (development aid, not a registered check).
 
-  audit_prompts.py <round>     round in {3}; creates /tmp/audit/prompt_CNN.txt for every property
+  audit_prompts.py <round>     round in {3, 4}; creates /tmp/audit/prompt_CNN.txt for every property
 
 Audit rounds ask fresh sub-agents to FIND defects in the unchanged tree (sections 10.8-10.10 of DESIGN.md);
 rounds 1 and 2 used the text kept in audit_prompt_example.txt. The sub-agents get ONLY the rendered prompt
@@ -74,6 +74,26 @@ ignoring accessors not spelled `TypeId() int32`; PrependError with an empty pref
 with empty text; unbounded recursion in ConvertUnknownFields; element IDs in unknown-field containers;
 slices returned next to a non-nil error; the unsynchronised SetSpanCache switch; zero-value (not
 constructed) string maps; strings handed out before a reload changing afterwards; requests above MaxInt/2.""",
+    4: """YOUR TASK: this library recently received a series of small repairs - run
+    git -C {wt} log --oneline --grep '^fix:'        (and `git -C {wt} show <commit>` for each one)
+to see them. Repairs are where new defects come from. For the property above, check each repair that touches the
+relevant code (and the helper packages it uses):
+  1. Is it COMPLETE? Look for the sibling code path that has the same flaw and was not repaired (another entry
+     point, the other reader/writer/decoder variant, the other map type, the failure path next to the repaired
+     success path).
+  2. Did it introduce something NEW? State that is now changed before a call can still fail; an early return
+     that skips a reset; a comparison that is now too strict or too lax; aliasing between a result and internal
+     storage; behaviour on the 2nd use of the object.
+  3. Does the repaired code still satisfy EVERY clause of the statement (read it literally, clause by clause),
+     including for the zero, the smallest and the largest legal argument?
+Write small randomised tests for whatever looks weak and run them. Already judged, do not report: very large
+positive declared sizes; 32-bit platforms; strings of 2 GiB and more; nil *ApplicationException;
+PrependError dropping a wrapped cause / other spellings of TypeId / empty prefix on a foreign exception with
+empty text; unbounded recursion in ConvertUnknownFields; element IDs in unknown-field containers; slices returned
+next to a non-nil error; the unsynchronised SetSpanCache switch; zero-value (not constructed) string maps;
+strings handed out before a reload changing afterwards; requests above MaxInt/2; 100 consecutive empty reads;
+IsTTHeader on fewer than 8 bytes; a negative maxdepth for SkipDecoderTpl.Skip; a MAP at Extra's id with other
+key/value types; MarshalFastMsg refusing the empty method name; BytesSkipDecoder reporting io.EOF.""",
 }
 
 
